@@ -599,6 +599,16 @@ fn run_seq(ctl: &Arc<Ctl>, c: &Arc<Content>, cap: u64, rng: &mut impl Rng, nops:
                 Some(cc) => cache = cc,
                 None => return normalise(c, ctl.take_events()),
             }
+            // refill after the restart: some of the items that have a file in the directory are put again and read
+            if rng.gen_bool(0.5) {
+                let (files, _, _) = c.listing(dir.path());
+                for f in files.iter().filter(|_| rng.gen_bool(0.5)).take(3) {
+                    let k = c.names.iter().position(|n| n == f[0].as_str().unwrap()).unwrap();
+                    let (s, e) = (f[1].as_u64().unwrap() as u32, f[2].as_u64().unwrap() as u32);
+                    do_op(c, &cache, &Op { kind: "put".into(), k, s, e });
+                    do_op(c, &cache, &Op { kind: "get".into(), k, s, e });
+                }
+            }
         } else if roll < 9 {
             // delete a file while the cache is open
             let (files, _, _) = c.listing(dir.path());
@@ -850,7 +860,9 @@ pub fn run(a: &Args) -> anyhow::Result<String> {
     let c = Arc::new(Content::new_sized(&mut rng, nkeys, nch, a.u64("minlen", 1) as u32, a.u64("maxlen", 24) as u32));
     // capacity: room for roughly `capitems` average items
     let avg: u64 = (0..nkeys).map(|k| c.file(k, 0, nch as u32).1).sum::<u64>() / nkeys as u64;
-    let cap = a.u64("cap", avg * a.u64("capx", 2));
+    // capdiv > 1: a capacity below the size of the larger items (oversize items are accepted by put and skipped by the
+    // directory scan of a re-open)
+    let cap = a.u64("cap", avg * a.u64("capx", 2) / a.u64("capdiv", 1).max(1));
     let mut out = TraceOut::create(&a.str("out", "/dev/null"))?;
     out.run(&[c.setup_event(cap)])?;
     let n = a.u64("n", 20);
